@@ -16,6 +16,9 @@ type Check struct {
 	Monitors   func() []h.Monitor
 	Bound      func(tier string) int
 	Prune      bool
+	// ShardByScenario gives whole scenarios to workers (many small scenarios) instead of splitting
+	// each scenario's level-1 alternatives.
+	ShardByScenario bool
 	Nontrivial func(hh *h.Hist) []string
 	// Grid part (Explorer G): enumerates its shard of the grid and feeds the collector.
 	Grid func(t *testing.T, tier string, shard, shards int, c *h.Collector)
@@ -63,18 +66,8 @@ func init() {
 			}
 			return 2
 		},
-		Prune: true,
-		Nontrivial: func(hh *h.Hist) []string {
-			var out []string
-			for _, m := range hh.Monitors {
-				if nm, ok := m.(*NearMiss); ok {
-					for k := range nm.Seen {
-						out = append(out, k)
-					}
-				}
-			}
-			return out
-		},
+		Prune:      true,
+		Nontrivial: seenKeys,
 		Assumptions: commonAssumptions,
 		Alphabet:    []string{"pod-start/finish(i)", "ds(i)", "cordon/uncordon(i)", "ext-taint(i, 9 values)", "force-taint(i)", "annotate(i)", "burst", "clear-pending", "restart", "stale-view", "skip-settle", "fail/kill at k8s get/update/delete, asg terminate/setdesired/describe"},
 	})
